@@ -1,5 +1,6 @@
 import Oracle.J
 import Eru.Cluster2.Spec
+import Eru.Cluster2.Lambda
 /- Oracle for the cluster2 group (C14, C30, C28, C22 and the cluster-level stream of C13): runs
    the model on the case, compares with the implementation's snapshots and evaluates the
    specification predicates on the implementation's output. Not part of any model or proof. -/
@@ -122,5 +123,83 @@ def handleCrash (j : Json) : Json :=
     (Json.mkObj [("crashed", stToJson nodes mCrash), ("final", stToJson nodes mFinal),
                  ("agree_crashed", agree1), ("agree_final", agree2)])
     viol cls
+
+/-! ### C30 -/
+def scriptOfJson (j : Json) : Script :=
+  { walLog := true,
+    logs := if jbool (jget j "logs_fail") then none else some (jnat (jget j "lines")),
+    attach := !jbool (jget j "attach_fail"),
+    wait := if jbool (jget j "wait_fail") then none else some (jint (jget j "code")) }
+
+def msgOfJson (j : Json) : Msg :=
+  { wid := jnat (jget j "id"),
+    kind := match jstr (jget j "kind") with
+      | "data" => .data
+      | "exit" => .exit (jint (jget j "code"))
+      | _ => .error }
+
+def msgToJson (m : Msg) : Json :=
+  match m.kind with
+  | .data => Json.mkObj [("id", m.wid), ("kind", "data")]
+  | .error => Json.mkObj [("id", m.wid), ("kind", "error")]
+  | .exit c => Json.mkObj [("id", m.wid), ("kind", "exit"), ("code", ji c)]
+
+def addCreated (s : St Res4) (id : Nat) (node : String) (r : Res4) : St Res4 :=
+  { s with usage := fun m => if m = node then s.usage m + r else s.usage m,
+           wls := ⟨id, node, r⟩ :: s.wls, cts := ⟨id, node, true⟩ :: s.cts }
+
+/-- C30: {nodes, ids, pre, shape.stdin, creates:[{id,node,res,script}], msgs, closed, impl} -/
+def handleLambda (j : Json) : Json :=
+  let id := jget j "id"
+  if jstr (jget j "err") != "" then verdict id true Json.null [] "refused" true else
+  let nodes := strs (jget j "nodes")
+  let stdin := jbool (jget (jget j "shape") "stdin")
+  let pre := stOfJson (jget j "pre")
+  let creates := jarr (jget j "creates")
+  let mid := creates.foldl (fun s c =>
+    let i := jnat (jget c "id")
+    if i == 0 then s else addCreated s i (jstr (jget c "node")) (resOfJson (jget c "res"))) pre
+  let cms : List (CreateMsg × Script) := creates.map fun c =>
+    let i := jnat (jget c "id")
+    (if i == 0 then CreateMsg.failed else CreateMsg.ok i, scriptOfJson (jget c "script"))
+  let r := runAll stdin cms ({ base := mid } : LSt Res4)
+  let impl := stOfJson (jget j "impl")
+  let implMsgs := (jarr (jget j "msgs")).map msgOfJson
+  let closed := jbool (jget j "closed")
+  let lamLeft := ((jarr (jget (jget j "impl") "wal")).filter fun e => jstr (jget e "e") == "create-lambda").length
+  let okIds := cms.filterMap fun p => match p.1 with | .ok i => some i | .failed => none
+  -- correspondence: final state, per-workload message sequences, pending events, closing
+  let agreeSt := (stToJson nodes { r.1.base with wal := [] }).compress == (stToJson nodes { impl with wal := [] }).compress
+  let agreeMsgs := (0 :: okIds).all fun i => msgsOf i r.2 == msgsOf i implMsgs
+  let agree := agreeSt && agreeMsgs && (lamLeft == r.1.lam.length) && (closed == streamCloses stdin cms ({ base := mid } : LSt Res4))
+  -- specification on the implementation's output
+  let vRemoved := okIds.flatMap fun i =>
+    (if recorded impl i then [s!"C30:record-left:{i}"] else []) ++ (if hasCt impl i then [s!"C30:container-left:{i}"] else [])
+  let vUsage := (consistentOn impl nodes).map (fun n => "C30:usage-differs-from-recorded:" ++ n) ++
+    (nodes.filter fun n => !(okIds.any fun i => recorded impl i) && decide (impl.usage n ≠ pre.usage n)).map (fun n => "C30:usage-left:" ++ n)
+  let vExit := cms.flatMap fun p =>
+    match p.1 with
+    | .failed => []
+    | .ok i =>
+      let ms := msgsOf i implMsgs
+      let exits := ms.filter fun m => match m.kind with | .exit _ => true | _ => false
+      let lastOk := match ms.getLast? with
+        | none => false
+        | some m => (match m.kind with | .data => false | _ => true)
+      let expectExit := p.2.logs.isSome && (!stdin || p.2.attach) && p.2.wait.isSome
+      (if !lastOk then [s!"C30:final-message-not-last:{i}"] else []) ++
+      (if exits.length > 1 then [s!"C30:several-exit-codes:{i}"] else []) ++
+      (if expectExit && ms.getLast? != some ⟨i, .exit (p.2.wait.getD 0)⟩ then [s!"C30:exit-code-not-last:{i}"] else [])
+  let vWal := if lamLeft > 0 then ["C30:lambda-event-left"] else []
+  let vClose := if closed then [] else ["C30:stream-not-closed"]
+  let tags := cms.map fun p => match p.1 with
+    | .failed => "createfail"
+    | .ok _ => if p.2.logs.isNone then "logsfail" else if stdin && !p.2.attach then "attachfail"
+               else if p.2.wait.isNone then "waitfail" else if p.2.wait == some 0 then "ok" else "exit"
+  let cls := s!"run:c{cms.length}:" ++ (if stdin then "stdin:" else "") ++ "+".intercalate (sortStr tags).eraseDups
+  verdict id agree
+    (Json.mkObj [("final", stToJson nodes r.1.base), ("msgs", Json.arr (r.2.map msgToJson).toArray),
+                 ("agree_state", agreeSt), ("agree_msgs", agreeMsgs)])
+    (vRemoved ++ vUsage ++ vExit ++ vWal ++ vClose) cls (okIds.isEmpty)
 
 end Oracle.Cluster2
